@@ -18,7 +18,6 @@ import (
 	"github.com/influxdata/kapacitor/influxdb"
 	"github.com/influxdata/kapacitor/udf"
 	"github.com/influxdata/kapacitor/udf/agent"
-
 )
 
 // ---------------------------------------------------------------------------------------------
@@ -54,8 +53,8 @@ type outRec struct {
 	mu      sync.Mutex
 	ids     map[int64]int
 	total   int
-	entered int   // calls that reached the output (possibly still blocked on the gate)
-	calls   []int // size of each completed call (influx: points per Write)
+	entered int           // calls that reached the output (possibly still blocked on the gate)
+	calls   []int         // size of each completed call (influx: points per Write)
 	keyed   map[int][]int // minflux: per database, the size of each Write call the client was handed (accepted or rejected)
 }
 
